@@ -332,61 +332,71 @@ theorem api_multi_ok {r : OpRow} (hr : r ∈ opsTable) {maps : List MapObj} (hok
       simpa using this)) h
 
 /-- **C06 (API), result type**: configuration and sentinel are the FIRST map's; the kind is a
-    function of the first map, of `dtype_out`, and of whether the combined coverage is empty
-    — never of the other maps' types -/
+    function of the first map and of `dtype_out` ALONE — a plain map of `dtype_out` when there
+    is one, else the first map's kind —, whether or not the combined coverage is empty (after
+    the `fix:` commit, finding F70; before it the empty result had the first map's dtype even
+    with a `dtype_out`), and never a function of the other maps' types -/
 theorem api_multi_type {r : OpRow} (hr : r ∈ opsTable) {first : MapObj} {rest : List MapObj}
     (hok : ∀ m ∈ first :: rest, m.Ok) {m' : MapObj}
     (h : apiMultiOp r.withSpec (first :: rest) = .ok m') :
     m'.covord = first.covord ∧ m'.spord = first.spord ∧ m'.sent = first.sent ∧ m'.cache = none ∧
-      m'.kind = if anyCov r first (first :: rest) then multiKindOut first.kind r.dtypeOut
-                else first.kind := by
-  rw [(rowShape_of_mem hr).1] at h
-  obtain ⟨f, rs, hfr, _, h1, h2, h3, h4, h5, _⟩ := ok_sem (ok_wf_kind hok) h
+      m'.kind = multiKindE first.kind r.dtypeOut := by
+  obtain ⟨hws, _, _, _, _, _, hpr⟩ := rowShape_of_mem hr
+  rw [hws] at h
+  obtain ⟨f, rs, hfr, _, h1, h2, h3, h4, h5, _, _, hmain, _⟩ := ok_sem (ok_wf_kind hok) h
   cases hfr
-  exact ⟨h1, h2, h3, h4, h5⟩
+  refine ⟨h1, h2, h3, h4, ?_⟩
+  rw [h5]
+  split
+  · rename_i hac
+    have hpo := (hmain hac).1
+    unfold kindOut multiKindOut multiKindE
+    cases hparse : parseDTCode r.dtypeOut with
+    | some d => cases first.kind <;> rfl
+    | none =>
+      cases hk : first.kind with
+      | packed =>
+        exfalso
+        unfold promotedOk dtOut at hpo
+        rw [hparse, hk] at hpo
+        exact hpr (eq_of_beq hpo)
+      | _ => rfl
+  · rfl
+
+/-- in terms of the output kind of the main path (`multiKindOut`, which differs from
+    `multiKindE` only in unpacking a bit-packed first map): the same kind in BOTH cases, as
+    soon as there is a `dtype_out` or the first map is not bit-packed -/
+theorem api_multi_kind_out {r : OpRow} (hr : r ∈ opsTable) {first : MapObj} {rest : List MapObj}
+    (hok : ∀ m ∈ first :: rest, m.Ok) {m' : MapObj}
+    (h : apiMultiOp r.withSpec (first :: rest) = .ok m')
+    (hd : parseDTCode r.dtypeOut ≠ none ∨ first.kind ≠ .packed) :
+    m'.kind = multiKindOut first.kind r.dtypeOut := by
+  rw [(api_multi_type hr hok h).2.2.2.2]
+  unfold multiKindOut multiKindE
+  cases hparse : parseDTCode r.dtypeOut with
+  | some d => cases first.kind <;> rfl
+  | none =>
+    cases hk : first.kind with
+    | packed => rcases hd with hd | hd
+                · exact absurd hparse hd
+                · exact absurd hk hd
+    | _ => rfl
 
 /-- the operations without `dtype_out` (all but `divide_intersection`) return a map of the
     first map's kind, unconditionally -/
 theorem api_multi_kind_named {r : OpRow} (hr : r ∈ opsTable) (hd : r.dtypeOut = "")
     {first : MapObj} {rest : List MapObj} (hok : ∀ m ∈ first :: rest, m.Ok) {m' : MapObj}
     (h : apiMultiOp r.withSpec (first :: rest) = .ok m') : m'.kind = first.kind := by
-  obtain ⟨hws, _, _, _, _, _, hpr⟩ := rowShape_of_mem hr
-  rw [hws] at h
-  obtain ⟨f, rs, hfr, _, _, _, _, _, h5, _, _, hmain, _⟩ := ok_sem (ok_wf_kind hok) h
-  cases hfr
-  rw [h5]
-  split
-  · rename_i hac
-    have hpo := (hmain hac).1
-    have hparse : parseDTCode r.dtypeOut = none := by rw [hd]; rfl
-    unfold kindOut multiKindOut
-    rw [hparse]
-    cases hk : first.kind with
-    | packed =>
-      exfalso
-      unfold promotedOk dtOut at hpo
-      rw [hparse, hk] at hpo
-      exact hpr (eq_of_beq hpo)
-    | _ => rfl
-  · rfl
+  rw [(api_multi_type hr hok h).2.2.2.2, hd]
+  rfl
 
-/-- `divide_intersection` (`dtype_out = float64`): a `float64` map — **provided the combined
-    coverage is not empty** (see `api_multi_kind_divide_empty` for what happens otherwise) -/
-theorem api_multi_kind_divide_partial {r : OpRow} (hr : r ∈ opsTable) (hd : r.dtypeOut = "f8")
+/-- **`divide_intersection` (`dtype_out = float64`) returns a `float64` map — unconditionally**
+    (also when the coverage intersection is empty: the statement that FAILED before the
+    `fix:` commit, see `api_multi_kind_divide_regression`) -/
+theorem api_multi_kind_divide {r : OpRow} (hr : r ∈ opsTable) (hd : r.dtypeOut = "f8")
     {first : MapObj} {rest : List MapObj} (hok : ∀ m ∈ first :: rest, m.Ok) {m' : MapObj}
-    (h : apiMultiOp r.withSpec (first :: rest) = .ok m')
-    (hcov : anyCov r first (first :: rest) = true) : m'.kind = .plain (.flt 64) := by
-  rw [(api_multi_type hr hok h).2.2.2.2, hcov, if_pos rfl, hd]
-  unfold multiKindOut
-  rw [show parseDTCode "f8" = some (.flt 64) from rfl]
-
-/-- … and with an EMPTY coverage intersection the result is `make_empty_like(first)`: a map of
-    the first map's own type, whatever `dtype_out` says -/
-theorem api_multi_kind_divide_empty {r : OpRow} (hr : r ∈ opsTable)
-    {first : MapObj} {rest : List MapObj} (hok : ∀ m ∈ first :: rest, m.Ok) {m' : MapObj}
-    (h : apiMultiOp r.withSpec (first :: rest) = .ok m')
-    (hcov : anyCov r first (first :: rest) = false) : m'.kind = first.kind := by
-  rw [(api_multi_type hr hok h).2.2.2.2, hcov]
+    (h : apiMultiOp r.withSpec (first :: rest) = .ok m') : m'.kind = .plain (.flt 64) := by
+  rw [(api_multi_type hr hok h).2.2.2.2, hd]
   rfl
 
 
@@ -596,11 +606,9 @@ theorem api_multi_valid_rule {r : OpRow} (hr : r ∈ opsTable) {first : MapObj} 
   · intro n hn
     have hk' : m'.kind = .wide n := by
       rw [hk]
-      split
-      · rcases hdo with hd | ⟨_, hf⟩
-        · unfold multiKindOut; rw [hd, hn]; rfl
-        · rw [hwf n hn] at hf; cases hf
-      · exact hn
+      rcases hdo with hd | ⟨_, hf⟩
+      · unfold multiKindE; rw [hd, hn]; rfl
+      · rw [hwf n hn] at hf; cases hf
     refine ⟨hk', fun bs => ?_⟩
     unfold MapObj.vc
     rw [hk']
@@ -610,37 +618,27 @@ theorem api_multi_valid_rule {r : OpRow} (hr : r ∈ opsTable) {first : MapObj} 
     rw [hs]
     have : (∃ d, m'.kind = .plain d) ∨ m'.kind = .packed := by
       rw [hk]
-      split
-      · rcases kindOut_cases r first hrec with ⟨d, hd⟩ | ⟨n, hn⟩
-        · exact Or.inl ⟨d, hd⟩
-        · exfalso
-          unfold kindOut multiKindOut at hn
-          cases hk1 : first.kind with
-          | wide n' => exact hnw n' hk1
-          | recd fs pr => rw [hk1] at hrec; cases hrec
-          | plain dt => rw [hk1] at hn; cases hp : parseDTCode r.dtypeOut <;> rw [hp] at hn <;> cases hn
-          | packed => rw [hk1] at hn; cases hp : parseDTCode r.dtypeOut <;> rw [hp] at hn <;> cases hn
-      · cases hk1 : first.kind with
+      unfold multiKindE
+      cases parseDTCode r.dtypeOut with
+      | some d => exact Or.inl ⟨d, rfl⟩
+      | none =>
+        cases hk1 : first.kind with
         | wide n' => exact absurd hk1 (hnw n')
         | recd fs pr => rw [hk1] at hrec; cases hrec
         | plain dt => exact Or.inl ⟨dt, rfl⟩
         | packed => exact Or.inr rfl
     rcases this with ⟨d, hd⟩ | hd <;> rw [hd] <;> rfl
 
-
 /-- the result type does not depend on the other maps: two successful calls with the same
-    first map agree on configuration and sentinel, and — when their combined coverages are
-    both empty or both non-empty — on the kind -/
+    first map agree on configuration, sentinel and kind -/
 theorem api_multi_type_first {r : OpRow} (hr : r ∈ opsTable) {first : MapObj}
     {rest₁ rest₂ : List MapObj} (hok₁ : ∀ m ∈ first :: rest₁, m.Ok) (hok₂ : ∀ m ∈ first :: rest₂, m.Ok)
     {m₁ m₂ : MapObj} (h₁ : apiMultiOp r.withSpec (first :: rest₁) = .ok m₁)
     (h₂ : apiMultiOp r.withSpec (first :: rest₂) = .ok m₂) :
-    m₁.covord = m₂.covord ∧ m₁.spord = m₂.spord ∧ m₁.sent = m₂.sent ∧
-    (anyCov r first (first :: rest₁) = anyCov r first (first :: rest₂) → m₁.kind = m₂.kind) := by
+    m₁.covord = m₂.covord ∧ m₁.spord = m₂.spord ∧ m₁.sent = m₂.sent ∧ m₁.kind = m₂.kind := by
   obtain ⟨a1, a2, a3, _, a5⟩ := api_multi_type hr hok₁ h₁
   obtain ⟨b1, b2, b3, _, b5⟩ := api_multi_type hr hok₂ h₂
-  refine ⟨by rw [a1, b1], by rw [a2, b2], by rw [a3, b3], fun hc => ?_⟩
-  rw [a5, b5, hc]
+  exact ⟨by rw [a1, b1], by rw [a2, b2], by rw [a3, b3], by rw [a5, b5]⟩
 
 /-! ### errors -/
 
@@ -693,10 +691,11 @@ theorem api_multi_err_wide_first {r : OpRow} (hr : r ∈ opsTable) {first : MapO
   exact (error_iff r _ .runtime).2 (Or.inl (structErr_wide_first h2 hfu hall hw hff))
 
 /-- with an empty combined coverage nothing else is looked at: the call succeeds with
-    `make_empty_like(first)` — whatever the row's dtype, the sentinels, the cell values -/
+    `make_empty_like(first)` (of `dtype_out` when there is one) — whatever the row's dtype, the
+    sentinels, the cell values -/
 theorem api_multi_empty {r : OpRow} (hr : r ∈ opsTable) {first : MapObj} {rest : List MapObj}
     (hacc : Accepts r first (first :: rest)) (hcov : anyCov r first (first :: rest) = false) :
-    apiMultiOp r.withSpec (first :: rest) = .ok (emptyLike first) := by
+    apiMultiOp r.withSpec (first :: rest) = .ok (emptyLike r first) := by
   rw [(rowShape_of_mem hr).1]
   exact (ok_iff r _ _).2 ⟨first, rest, rfl, hacc, Or.inl ⟨hcov, rfl⟩⟩
 
@@ -820,7 +819,7 @@ theorem api_multi_any_row {row : OpRow} {first : MapObj} {rest : List MapObj}
   · rename_i n _ _ hk _; exact absurd hk (hnw n)
   · rfl
 
-/-! ### non-vacuity, and the one statement that fails -/
+/-! ### non-vacuity, and the regression example of the one statement that failed -/
 
 /-- the row of the named operation for first maps of dtype code `dt` -/
 def rowOf (nm dt : String) : OpRow :=
@@ -902,12 +901,12 @@ example : okAnd (do
       (fillerOf (rowOf "and_intersection" "u1w") a == .bytes [255, 255])) = true := by
   decide +kernel
 
-/-- **the statement that FAILS**: "the result of `divide_intersection` is a `float64` map".
-    Two well-formed `int32` maps whose coverage masks do not intersect: the call succeeds and
-    returns an `int32` map (`make_empty_like(map_list[0])`), while with one common coverage
-    pixel — even without any common valid pixel — the result is `float64` (example above).
-    The output dtype of the documented `dtype_out` depends on the data. -/
-theorem api_multi_kind_divide_counterexample :
+/-- **regression example for finding F70** (the statement that FAILED before the `fix:` commit):
+    two well-formed `int32` maps whose coverage masks do not intersect. `divide_intersection`
+    used to return `make_empty_like(map_list[0])` — an `int32` map —, while with one common
+    coverage pixel, even without any common valid pixel, the result was `float64`: the
+    documented `dtype_out` depended on the data. Now the empty result is `float64` too. -/
+theorem api_multi_kind_divide_regression :
     okAnd (do
       let a ← exI4 none [1, 2] [5, 6]
       let b ← exI4 none [20, 21] [5, 6]
@@ -915,17 +914,18 @@ theorem api_multi_kind_divide_counterexample :
       pure (a, b, m'))
     (fun (a, b, m') => decide a.Ok && decide b.Ok && decide m'.Ok &&
       ((rowOf "divide_intersection" "i4").dtypeOut == "f8") &&
-      (m'.kind == .plain (.int 32 true)) && (m'.kind != .plain (.flt 64)) &&
-      !anyCov (rowOf "divide_intersection" "i4") a [a, b]) = true := by
+      (m'.kind == .plain (.flt 64)) && (m'.sent == a.sent) &&
+      !anyCov (rowOf "divide_intersection" "i4") a [a, b] &&
+      !covered m'.c m'.st 0 && !m'.vc.valid (m'.abs 1)) = true := by
   decide +kernel
 
-/-! the same through the protocol driver (`runLines`): `info c` answers `i4`, `info d` answers `f8` -/
+/-! the same through the protocol driver (`runLines`): `c` (empty intersection) and `d` are both `f8` -/
 #guard ((runLines [
     "cfg a kind=plain dtype=i4 covord=0 spord=1",
     "cfg b kind=plain dtype=i4 covord=0 spord=1",
     "upd a pix=1,2 vals=5,6",
     "upd b pix=20,21 vals=5,6",
-    "mop name=divide_intersection maps=a,b r=c"]).get? "c").map (·.kind) == some (.plain (.int 32 true))
+    "mop name=divide_intersection maps=a,b r=c"]).get? "c").map (·.kind) == some (.plain (.flt 64))
 #guard ((runLines [
     "cfg a kind=plain dtype=i4 covord=0 spord=1",
     "cfg b kind=plain dtype=i4 covord=0 spord=1",
